@@ -1,6 +1,8 @@
 pub mod c01;
 pub mod c02;
 pub mod c03;
+pub mod c08;
 pub mod c10;
 pub mod c15;
+pub mod experiment;
 pub mod tworld;
